@@ -61,6 +61,7 @@ def make(prop, rule_text, hostile_names):
             return
         if spec["family"] == "threads":
             pc.threaded_compile(prop, M, spec["seed"], rounds=spec["rounds"])
+            pc.reentrant_compile(prop, M, spec["seed"], n=40 if spec["rounds"] < 100 else 400)
             return
         if spec["family"] == "reused_compiler":
             from gherkin.pickles.compiler import Compiler
@@ -76,6 +77,8 @@ def make(prop, rule_text, hostile_names):
             run_shard({"family": "thresholds", "tier": "thorough", "part": 0, "parts": 1, "seed": 0}, M)
         elif case["kind"] == "shard":
             run_shard(case["spec"], M)
+        elif case["kind"] == "reentrant":
+            pc.reentrant_compile(prop, M, case["seed"], n=400)
         elif case["kind"] == "threads":
             pc.threaded_compile(prop, M, case["seed"], rounds=300)
         elif case["kind"] == "childless":
